@@ -109,5 +109,5 @@ Theorem C11_example_thm :
 Proof.
   destruct istA_facts as (A & B & _ & _ & _ & _ & _ & _ & _ & _ & _ & C & D).
   destruct istA_handover as (_ & _ & _ & _ & _ & _ & E).
-  repeat split; auto. apply reachable_istR.
+  exact (conj A (conj B (conj D (conj C (conj reachable_istR E))))).
 Qed.
